@@ -20,7 +20,7 @@ RULE = ("Hypothesis-generated programs of 8-40 calls (thorough: up to 60) on Exp
 ASSUMPTIONS = ["rules 11-12 (interface counts of L2PTP / PortMirror) are slice-validation cardinalities checked in C10",
                "remove_link is only applied to links created by add_link",
                "name-keyed views (dicts) are required to contain every element name and only existing elements"]
-BUDGET = {"quick": 900, "thorough": 25000}
+BUDGET = {"quick": 900, "thorough": 9000}
 MIN_LABEL_FRACTION = {"nontrivial": 0.08, "substrate": 0.12, "has-connected": 0.15, "has-removal": 0.15}
 
 _VOCAB = None
@@ -72,7 +72,7 @@ EXCLUDE = _exclusions()
 @st.composite
 def _case(draw, tier):
     flavour = draw(st.sampled_from(["experiment", "experiment", "substrate"]))
-    names = st.one_of(st.just(["fresh"]), st.just(["fresh"]), st.just(["fresh"]), st.just(["fresh"]),
+    names = st.one_of(st.just(["fresh"]), st.just(["fresh"]), st.just(["fresh"]), topo.name_fresh_or_long,
                       st.builds(lambda k: ["dup", k], st.integers(0, 7)))
     ids = st.one_of(st.none(), st.none(), st.none(), st.just(["fresh"]), st.builds(lambda k: ["dup", k], st.integers(0, 9)))
     prog = draw(topo.program(flavour, max_ops=60 if tier == "thorough" else 40, names=names, ids=ids, min_ops=8))
